@@ -19,7 +19,7 @@ Theorem C01_reachable_invariant : forall ps pn pd ops n b,
   Forall (fun p => c_ok (snd p) = true /\
                    apply_resps (c_view (snd p)) (c_pend (snd p)) = Some (uids b) /\
                    (c_idle (snd p) = true -> c_pend (snd p) = [])) (b_clients b).
-Proof. intros ps pn pd ops n b H. exact (proj1 (reachable_inv ps pn pd ops n b H)). Qed.
+Proof. exact reachable_binv. Qed.
 Print Assumptions C01_reachable_invariant.
 
 Theorem C01_step_preserves : forall w o, winv w -> winv (fst (step w o)).
